@@ -38,6 +38,9 @@ def gen(seed, tier):
     sc = {"prop": "C08", "seed": seed, "kind": kind, "pool": {"supply": rng.choice(SUPPLY), "demand": rng.choice(DEMAND), "utilisation": rng.choice(FR), "allocation": rng.choice(FR)}}
     # the regulation steps are taken by the controller's own run() loop (one per interval of
     # virtual time, the first one at once) instead of by calling regulate() directly
+    if kind == "stepwise" and rng.random() < 0.3:
+        sc["bystander"] = sorted(rng.sample([0.5, 1.0, 3.0, 5.0, 12.0, 20.0, 64.0], rng.randint(0, 3)))
+        sc["bystander_first"] = rng.random() < 0.6
     sc["via_run"] = kind in ("linear", "relsupply") and rng.random() < 0.25
     sc["run_interval"] = rng.choice([0.5, 1.0, 2.0, 8.0])
     nsteps = rng.randint(1, 12) if rng.random() < 0.8 else rng.randint(13, 60)
@@ -192,6 +195,14 @@ def run(scenario, tape_values):
             if len({r[0] for r in rules}) != len(rules) or any(r[0] <= 0 for r in rules):
                 raise ScenarioInvalid("duplicate or non-positive thresholds")
             via = params.get("via", "direct")
+
+            def bystander():
+                # another Stepwise controller elsewhere in the process, with a rule table of its own
+                other = RecPool(world, "otherpool", supply=3.0, demand=2.0)
+                Stepwise(other, lambda pool_, interval_: 123.0, *[(th, (lambda v: (lambda pool_, interval_: v))(1000.0 + th)) for th in sc.get("bystander", [])], interval=interval)
+
+            if sc.get("bystander") is not None and sc.get("bystander_first"):
+                bystander()
             if via == "direct":
                 ctrl = Stepwise(pool, base, *rules, interval=interval)
             else:
@@ -202,6 +213,8 @@ def run(scenario, tape_values):
                     else:
                         unbound.add(fn, supply=th)
                 ctrl = unbound(pool, interval=interval) if via in ("call", "decorator") else (unbound.s(interval=interval) >> pool)
+            if sc.get("bystander") is not None and not sc.get("bystander_first"):
+                bystander()
     except AssertionError as err:
         raise ScenarioInvalid("constructor rejected parameters: %s" % err)
 
